@@ -30,6 +30,8 @@ ENV.update({"CARGO_NET_OFFLINE": "true", "GOPROXY": "off", "PIP_NO_INDEX": "1"})
 # axioms from the standard library that a theorem may depend on (none are needed so far)
 AXIOM_ALLOWLIST = set()
 
+NOTE_COMMON = 'Trusted: Coq 8.16.1 kernel (+vm_compute), no axioms; the hand-written Gallina model is tied to /repo only by the correspondence run (OCaml extraction with ExtrOcamlBasic vs the Rust harness on generated inputs) and the translator; see DESIGN.md section 4.'
+
 TRUSTED_BASE = [
     "Coq 8.16.1 kernel (coqc); vm_compute used for finite-domain obligations; native_compute not used",
     "axioms: none (every property theorem prints 'Closed under the global context')",
@@ -83,6 +85,7 @@ def run_translator():
 
 
 def coq_makefile():
+    sh([sys.executable, os.path.join(VERIF, "tools", "mkproject.py")], timeout=60, check=True)
     mk = os.path.join(COQ, "Makefile")
     cp = os.path.join(COQ, "_CoqProject")
     if not os.path.exists(mk) or os.path.getmtime(mk) < os.path.getmtime(cp):
@@ -151,8 +154,9 @@ def build_model():
         for f in sorted(files):
             if f.endswith(".v"):
                 h.update(open(os.path.join(root, f), "rb").read())
-    for f in ("conv.ml", "util.ml", "driver.ml", "build.sh"):
-        h.update(open(os.path.join(VERIF, "ocaml", f), "rb").read())
+    for f in sorted(os.listdir(os.path.join(VERIF, "ocaml"))):
+        if f.endswith(".ml") or f == "build.sh":
+            h.update(open(os.path.join(VERIF, "ocaml", f), "rb").read())
     dig = h.hexdigest()
     if os.path.exists(stamp) and open(stamp).read() == dig and os.path.exists(os.path.join(BUILD, "ocaml", "model")):
         return True, "cached"
